@@ -39,6 +39,7 @@ type Fixture struct {
 	udpSrv   *UDPServer
 	clients  []*core.Client
 	pending  []func() (int, int)
+	counters []func(int32)
 	stops    []func()
 	poolRef  core.WorkerPool
 }
@@ -176,10 +177,13 @@ func (f *Fixture) NewClient() *core.Client {
 	switch f.Kind {
 	case "socket":
 		f.pending = append(f.pending, c.GetTransport("socket").(*socket.Transport).VerifPending)
+		f.counters = append(f.counters, c.GetTransport("socket").(*socket.Transport).VerifSetCounter)
 	case "websocket", "websocket-fast":
 		f.pending = append(f.pending, c.GetTransport("websocket").(*websocket.Transport).VerifPending)
+		f.counters = append(f.counters, c.GetTransport("websocket").(*websocket.Transport).VerifSetCounter)
 	case "udp":
 		f.pending = append(f.pending, c.GetTransport("udp").(*udp.Transport).VerifPending)
+		f.counters = append(f.counters, c.GetTransport("udp").(*udp.Transport).VerifSetCounter)
 	case "http":
 		t := c.GetTransport("http").(*rpchttp.Transport)
 		ht := t.HTTPClient.Transport.(*http.Transport)
@@ -221,6 +225,13 @@ func (f *Fixture) Pending() (conns, pending int) {
 		pending += n
 	}
 	return
+}
+
+// SetCounter presets the request counter of every pooled connection of every client (multiplexing transports).
+func (f *Fixture) SetCounter(v int32) {
+	for _, set := range f.counters {
+		set(v)
+	}
 }
 
 // InFlight reports whether any message is still travelling.
